@@ -22,6 +22,8 @@ from dataclasses import dataclass, field
 from typing import Any, Dict, List, Optional
 
 VERIF = os.path.dirname(os.path.dirname(os.path.abspath(__file__)))
+# scratch runs (sensitivity experiments against patched worktrees) write their evidence/replays elsewhere
+OUT = os.environ.get("BBV_OUT") or VERIF
 
 
 class HarnessError(Exception):
@@ -348,15 +350,15 @@ def run_property(pid, tier, seed):
     if stats.harness_errors:
         raise HarnessError("; ".join(stats.harness_errors[:3]))
     # replay files and verdict
-    os.makedirs(os.path.join(VERIF, "replays"), exist_ok=True)
+    os.makedirs(os.path.join(OUT, "replays"), exist_ok=True)
     violations = 0
     for b, info in sorted(stats.buckets.items()):
         violations += 1
         path = os.path.join("replays", "%s-%s.json" % (pid, sha(b)))
-        with open(os.path.join(VERIF, path), "w", encoding="utf-8") as f:
+        with open(os.path.join(OUT, path), "w", encoding="utf-8") as f:
             json.dump({"property": pid, "bucket": b, "detail": info["detail"], "case": info["case"],
                        "seed": info.get("seed"), "tier": tier}, f, indent=1, ensure_ascii=True)
-        lines.append("VIOLATION property=%s replay=%s" % (pid, os.path.join(VERIF, path)))
+        lines.append("VIOLATION property=%s replay=%s" % (pid, os.path.join(OUT, path)))
         lines.append("  bucket: %s" % b)
         lines.append("  detail: %s" % info["detail"][:600].replace("\n", "\n          "))
     wall = time.time() - t0
@@ -387,8 +389,8 @@ def run_property(pid, tier, seed):
         "wall_s": round(wall, 2),
         "violations": violations,
     }
-    os.makedirs(os.path.join(VERIF, "evidence"), exist_ok=True)
-    with open(os.path.join(VERIF, "evidence", "%s.json" % pid), "w", encoding="utf-8") as f:
+    os.makedirs(os.path.join(OUT, "evidence"), exist_ok=True)
+    with open(os.path.join(OUT, "evidence", "%s.json" % pid), "w", encoding="utf-8") as f:
         json.dump(evidence, f, indent=1, ensure_ascii=True, default=str)
     for l in lines:
         print(l)
